@@ -195,3 +195,40 @@ Definition size_ok (c : rcfg) (o : outcome) : bool := Nat.leb (o_len o) (r_max c
 
 Definition spec_holds (c : rcfg) (init : list (K * V)) (progs : list (list op)) (o : outcome) : bool :=
   size_ok c o && match serial_witness c init progs o with Some _ => true | None => false end.
+
+(* ---- how often on_miss is called ---------------------------------------------------------------
+   Not one of the observables the property names, but a consequence of "each operation takes effect
+   atomically": a lookup (c[k], get, setdefault) calls on_miss exactly when the key is absent at the
+   point where the operation takes effect, and stores the value in the same step -- so in a sequential
+   execution a second lookup of that key hits.  The harness counts the calls of a run; the count must
+   be the one of SOME accepted interleaving with the observed results and final state. *)
+Definition r_calls (c : rcfg) (s : rcache) (o : op) : nat :=
+  match o with
+  | GetItem k | Get k _ | SetDefault k _ =>
+      match r_lookup s k, r_miss c with
+      | None, Some _ => 1
+      | _, _ => 0
+      end
+  | _ => 0
+  end.
+
+Fixpoint find_serial_calls (fuel : nat) (c : rcfg) (s : rcache) (n : nat) (ths : list tprog)
+         (final : rcache -> nat -> bool) : bool :=
+  if all_done ths then final s n else
+  match fuel with
+  | 0 => false
+  | S fuel' =>
+      existsb (fun pk => let '(_, (o, r), ths') := pk in
+                         match r_accepts c s o r with
+                         | Some s' => find_serial_calls fuel' c s' (n + r_calls c s o) ths' final
+                         | None => false
+                         end) (picks ths)
+  end.
+
+Definition calls_ok (c : rcfg) (init : list (K * V)) (progs : list (list op)) (o : outcome) (calls : nat) : bool :=
+  match o_status o, zip_progs progs (o_results o) with
+  | Done, Some ths =>
+      find_serial_calls (total_ops progs) c (r_init c init) 0 ths
+                        (fun s n => final_ok c o s && Nat.eqb n calls)
+  | _, _ => false
+  end.
